@@ -249,11 +249,18 @@ func init() {
 				}
 			}
 			outcomes[o]++
+			if outcomes["hang"] >= 3 && o == "hang" {
+				// each hang costs the watchdog's 60 s and leaves a stuck goroutine behind: three are evidence enough
+				emit(Result{ID: fmt.Sprintf("%s/%s/cut%d", cs.ID, cs.Fmt, cut), OK: false, Kind: "truncated-read",
+					Detail: fmt.Sprintf("reading the first %d of %d bytes: third hang in this job (%s), remaining cut offsets of the job not tried", cut, cs.Total, d),
+					Case:   map[string]interface{}{"id": cs.ID, "fmt": cs.Fmt, "cuts": []int{cut}, "total": cs.Total}})
+				break
+			}
 			if o != "error" && bad < 5 {
 				bad++
 				emit(Result{ID: fmt.Sprintf("%s/%s/cut%d", cs.ID, cs.Fmt, cut), OK: false, Kind: "truncated-read",
 					Detail: fmt.Sprintf("reading the first %d of %d bytes: %s %s — KeysFile.tla: a strict prefix never loads", cut, cs.Total, o, d),
-					Case: map[string]interface{}{"id": cs.ID, "fmt": cs.Fmt, "cuts": []int{cut}, "total": cs.Total}})
+					Case:   map[string]interface{}{"id": cs.ID, "fmt": cs.Fmt, "cuts": []int{cut}, "total": cs.Total}})
 			}
 		}
 		// ReadSystemFromFile and the CLI on truncated files
@@ -261,8 +268,8 @@ func init() {
 		for i := 0; i < cs.NCLI && i < len(cs.Cuts); i++ {
 			cut := cs.Cuts[(i*7919)%len(cs.Cuts)]
 			os.WriteFile(tmp, data[:cut], 0o644)
-			if _, err := prover.ReadSystemFromFile(tmp); err == nil {
-				emit(Result{ID: fmt.Sprintf("%s/%s/file-cut%d", cs.ID, cs.Fmt, cut), OK: false, Kind: "truncated-read", Detail: fmt.Sprintf("ReadSystemFromFile loads a file cut at %d of %d bytes", cut, cs.Total),
+			if o, d := readFile(tmp); o != "error" {
+				emit(Result{ID: fmt.Sprintf("%s/%s/file-cut%d", cs.ID, cs.Fmt, cut), OK: false, Kind: "truncated-read", Detail: fmt.Sprintf("ReadSystemFromFile on a file cut at %d of %d bytes: %s %s", cut, cs.Total, o, d),
 					Case: map[string]interface{}{"id": cs.ID, "fmt": cs.Fmt, "cuts": []int{cut}, "total": cs.Total}})
 			}
 			if cs.CLI != "" {
